@@ -177,11 +177,11 @@ func c15Configs(tier string) []vmc.Cfg {
 	for m := 0; m < 4; m++ {
 		out = append(out, vmc.Cfg{Name: fmt.Sprintf("findpeer/%d", m), Data: c15cfg{part: "findpeer", mask: m}})
 	}
-	// address alphabet: every subset of size <=3 (quick: <=2) as referral addresses / host addresses
+	// address alphabet: every subset (quick: of size <=3) as referral addresses / host addresses
 	n := len(c15Alphabet)
-	maxSize := 2
+	maxSize := 3
 	if tier == "thorough" {
-		maxSize = 3
+		maxSize = n // every subset
 	}
 	for m := 0; m < 1<<n; m++ {
 		if bitsSet(m) > maxSize {
